@@ -415,6 +415,8 @@ H("conn_keep_alive_idle_native", ["C08"], "replay-only", "connection::keep_alive
   [("x", "u8")], 4, [], ["Connection::handle_timeout", "Connection::poll_transmit", "PacketBuilder::finish_and_track"], "native replay body of E2 query e2_handle_timeout_iteration")
 H("conn_off_path_challenge_native", ["C07"], "replay-only", "connection::off_path_challenge_native",
   [("n", "u8")], 4, [], ["Connection::handle_event", "Connection::process_payload", "Connection::poll_transmit", "PathResponses"], "native demonstration / replay body of E2 slice query e2_off_path_response_slice")
+H("streams_stop_then_reset_credit_native", ["C06"], "replay-only", "connection::streams::stop_then_reset_credit_native",
+  [("buffered", "u8"), ("extra", "u8")], 4, [], ["RecvStream::stop", "StreamsState::received_reset", "StreamsState::add_read_credits"], "native demonstration / replay body: credit after stop + RESET_STREAM")
 H("conn_peer_params_cid_auth_native", ["C14", "C04"], "replay-only", "connection::peer_params_cid_auth_native",
   [("server", "bool"), ("which", "u8")], 4, [], ["Connection::handle_peer_params"], "native replay body of E2 query e2_peer_params_cid_auth")
 
